@@ -36,6 +36,18 @@ CHECKS["C06"] = dict(
     technique="Coq proof over Q model + in-Coq correspondence with the constraint objects",
     design="7/C06")
 
+CHECKS["C19"] = dict(
+    text=("Theorems (Props/C19.v) about a Gallina mirror of custom_reduce_prod's hand-written gradient: for every "
+          "length, position and zero pattern the delivered number is the unique slope of the product (product of the "
+          "other entries); chain rule gives exact kernel/scale slopes of the Kronecker-factored output; for Lattice "
+          "(hypercube, simplex), PWLCalibration and CategoricalCalibration the kernel derivative is the interpolation "
+          "weight, independent of the kernel, non-negative and summing to one for in-range/clipped Lattice inputs. "
+          "tf.GradientTape gradients of the real functions/layers are compared with the model inside Coq on every run."),
+    note="Models: Model/Gradients.v. TensorFlow autodiff of built-in ops is trusted; float32-only product path "
+         "compared at 1e-5.",
+    technique="Coq proof over Q model + in-Coq correspondence with tf.GradientTape gradients",
+    design="7/C19")
+
 NOT_YET = {}
 
 
